@@ -16,11 +16,18 @@ import (
 // matryer-style mocks: C04 (forwarding and recording, sequential histories) and C05 (the same
 // operations from several tasks under seeded schedules).
 
+// pendingCall is what a task is passing to the mock right now (for identity comparison inside Func)
+type pendingCall struct {
+	method string
+	ids    []string
+}
+
 type invocation struct {
 	method  string
 	argFPs  []string
 	results []reflect.Value
 	resFPs  []string
+	idDiff  string // non-empty: an argument arrived as another value (equal content, different identity)
 }
 
 type histOp struct {
@@ -51,6 +58,8 @@ type matryerRun struct {
 	// shadow: a second instance of the same mock type that is used alongside (never judged itself)
 	shadow reflect.Value
 	tags   map[string]bool
+	// pending: what each task is passing to the mock right now
+	pending [simsync.MaxTasks + 1]*pendingCall
 }
 
 type heldList struct {
@@ -80,6 +89,13 @@ func (r *matryerRun) install(m *methodInfo, mode string) {
 	f.Set(reflect.MakeFunc(f.Type(), func(in []reflect.Value) []reflect.Value {
 		tid := simsync.CurTask() + 1
 		inv := invocation{method: mm.Name, argFPs: fpsOfReceived(&mm, in)}
+		if pc := r.pending[tid]; pc != nil && pc.method == mm.Name && len(pc.ids) == len(in) {
+			for j := range in {
+				if want := pc.ids[j]; want != "" && ID(in[j]) != want {
+					inv.idDiff = fmt.Sprintf("parameter %d: passed %s, %sFunc received %s (equal content, another value)", j, want, mm.Name, ID(in[j]))
+				}
+			}
+		}
 		for i := 0; i < mm.Type.NumOut(); i++ {
 			v := r.resGen.Value(mm.Type.Out(i))
 			inv.results = append(inv.results, v)
@@ -157,7 +173,25 @@ func (r *matryerRun) exec(task int, oi int, op Op) {
 			sargs := genArgs(m, sg, -1)
 			safeCall(func() { r.shadow.MethodByName(m.Name).Call(sargs.Vals) })
 		}
-		pv, panicked := safeCall(func() { outs = r.mv.MethodByName(m.Name).Call(args.Vals) })
+		// the variadic list is passed as a slice of ours (f(xs...)), so that it has an identity
+		callVals, callSlice := args.Vals, false
+		if m.Variadic {
+			n := m.Type.NumIn()
+			buf := reflect.MakeSlice(m.Type.In(n-1), args.NVar, args.NVar)
+			for k := 0; k < args.NVar; k++ {
+				buf.Index(k).Set(args.Vals[n-1+k])
+			}
+			callVals, callSlice = append(append([]reflect.Value(nil), args.Vals[:n-1]...), buf), true
+		}
+		r.pending[task+1] = &pendingCall{m.Name, IDs(callVals)}
+		pv, panicked := safeCall(func() {
+			if callSlice {
+				outs = r.mv.MethodByName(m.Name).CallSlice(callVals)
+			} else {
+				outs = r.mv.MethodByName(m.Name).Call(callVals)
+			}
+		})
+		r.pending[task+1] = nil
 		r.hist[hidx].rt = simsync.Tick()
 		invs := r.log[task+1][before:]
 		trig := fmt.Sprintf("params=%d,results=%d,variadic=%v,func=%s", m.Type.NumIn(), m.Type.NumOut(), m.Variadic, mode)
@@ -205,9 +239,15 @@ func (r *matryerRun) exec(task int, oi int, op Op) {
 				r.fail(&Violation{"func-arguments-differ", site, trig, "the call's arguments position by position: " + short(tupleOf(args.FPs), 300), short(tupleOf(invs[0].argFPs), 300)})
 				break
 			}
+			if invs[0].idDiff != "" {
+				r.fail(&Violation{"func-arguments-are-copies", site, trig, m.Name + "Func is invoked with exactly the call's arguments (what it writes through a slice, map or pointer reaches the caller)", invs[0].idDiff})
+				break
+			}
 			if mode != "panic" {
 				if got := fpsOf(outs); !eqStrs(got, invs[0].resFPs) {
 					r.fail(&Violation{"results-differ", site, trig, "exactly the results of " + m.Name + "Func: " + short(tupleOf(invs[0].resFPs), 300), short(tupleOf(got), 300)})
+				} else if got, want := IDs(outs), IDs(invs[0].results); !eqStrs(got, want) {
+					r.fail(&Violation{"results-are-copies", site, trig, "exactly the results of " + m.Name + "Func (the very slices, maps and pointers): " + short(tupleOf(want), 300), short(tupleOf(got), 300)})
 				}
 			}
 		}
